@@ -118,6 +118,11 @@ impl Name {
     pub fn to_string(&self) -> (r: Name) ensures r == *self, { unimplemented!() }
 }
 
+// stand-in that only matters for CHANGED code (0 hits on /repo): lets an edit that swallows an error reach the
+// verifier.  Weakest contract: on Ok the value is the payload; on Err nothing is known.
+pub assume_specification<T: Default, E>[Result::<T, E>::unwrap_or_default](x: Result<T, E>) -> (v: T)
+    ensures x matches Ok(y) ==> v == y;
+
 /// which index a tree lookup asked for
 pub ghost enum Which { Full, Zoom(u32) }
 /// one file access of the glue: a tree lookup with its result (the tree's offset, None = it failed), or an
@@ -164,9 +169,8 @@ pub open spec fn lookup(v: Seq<ChromInfo>, n: Name) -> Option<ChromInfo> { looku
 pub open spec fn query_log(l0: Seq<Ev>, l: Seq<Ev>, which: Which, endianness: Endianness, id: u32, start: u32, end: u32, blocks: Seq<Block>) -> bool {
     let n = l0.len() as int;
     &&& l.len() == n + 2
-    &&& l.subrange(0, n) == l0
     &&& l[n] is Tree && l[n]->which == which && l[n]->at is Some
-    &&& l[n + 1] == (Ev::Search { endianness, tree_at: l[n]->at->Some_0, chrom_ix: id, start, end, blocks: Some(blocks) })
+    &&& l == l0.push(l[n]).push(Ev::Search { endianness, tree_at: l[n]->at->Some_0, chrom_ix: id, start, end, blocks: Some(blocks) })
 }
 /// a query that failed although the chromosome exists: the tree lookup failed (and nothing was searched),
 /// or the one search on that tree with exactly (byte order, id, start, end) failed
@@ -175,9 +179,8 @@ pub open spec fn failed_log(l0: Seq<Ev>, l: Seq<Ev>, which: Which, endianness: E
     ||| l == l0.push(Ev::Tree { which, at: None })
     ||| {
         &&& l.len() == n + 2
-        &&& l.subrange(0, n) == l0
         &&& l[n] is Tree && l[n]->which == which && l[n]->at is Some
-        &&& l[n + 1] == (Ev::Search { endianness, tree_at: l[n]->at->Some_0, chrom_ix: id, start, end, blocks: None })
+        &&& l == l0.push(l[n]).push(Ev::Search { endianness, tree_at: l[n]->at->Some_0, chrom_ix: id, start, end, blocks: None })
     }
 }
 
@@ -247,7 +250,9 @@ pub fn position_chrom(v: &Vec<ChromInfo>, chrom_name: &Name) -> (r: Option<usize
 //@sub /internal::/ => "" min=0
 //@end
 /// `#[from] io::Error` of CirTreeSearchError (generated by thiserror): behind `search_cir_tree_inner(..)?`
-pub fn io_to_cts(e: IoError) -> CirTreeSearchError { CirTreeSearchError::IoError(e) }
+pub fn io_to_cts(e: IoError) -> (r: CirTreeSearchError)
+    ensures r == CirTreeSearchError::IoError(e),
+{ CirTreeSearchError::IoError(e) }
 
 // ---------------- name -> id ----------------
 impl BBIFileInfo {
@@ -359,7 +364,7 @@ impl BigWigRead {
 //@sub /BigWigIntervalIter<R, / => BigWigIntervalIter< min=1
 //@sub /chrom_name: &str/ => chrom_name: &Name min=1
 //@sub /[ \t]*r: std::marker::PhantomData,\n/ => "" min=1
-//@sub /blocks\.into_iter\(\)/ => blocks min=0
+//@sub /\.into_iter\(\)/ => "" min=0
 //@sub /(self\.info\.chrom_id\([^()]*\))\?/ => (match \1 { Ok(v__) => v__, Err(e__) => return Err(cinf_to_read(e__)) }) min=0
 //@sub /(self\.full_data_cir_tree\(\))\?/ => (match \1 { Ok(v__) => v__, Err(e__) => return Err(fdct_to_read(e__)) }) min=0
 //@sub /(search_cir_tree\([^()]*\))\?/ => (match \1 { Ok(v__) => v__, Err(e__) => return Err(cts_to_read(e__)) }) min=0
@@ -387,7 +392,7 @@ impl BigWigRead {
 //@sub /BigWigIntervalIter<R, / => BigWigIntervalIter< min=1
 //@sub /chrom_name: &str/ => chrom_name: &Name min=1
 //@sub /[ \t]*r: std::marker::PhantomData,\n/ => "" min=1
-//@sub /blocks\.into_iter\(\)/ => blocks min=0
+//@sub /\.into_iter\(\)/ => "" min=0
 //@sub /(self\.info\.chrom_id\([^()]*\))\?/ => (match \1 { Ok(v__) => v__, Err(e__) => return Err(cinf_to_read(e__)) }) min=0
 //@sub /(self\.full_data_cir_tree\(\))\?/ => (match \1 { Ok(v__) => v__, Err(e__) => return Err(fdct_to_read(e__)) }) min=0
 //@sub /(search_cir_tree\([^()]*\))\?/ => (match \1 { Ok(v__) => v__, Err(e__) => return Err(cts_to_read(e__)) }) min=0
@@ -416,7 +421,7 @@ impl BigWigRead {
 //@sub /BigWigRead<R>/ => BigWigRead min=1
 //@sub /ZoomIntervalIter<BigWigRead, / => ZoomIntervalIter< min=1
 //@sub /chrom_name: &str/ => chrom_name: &Name min=1
-//@sub /blocks\.into_iter\(\)/ => blocks min=0
+//@sub /\.into_iter\(\)/ => "" min=0
 //@sub /(self\.info\.chrom_id\([^()]*\))\?/ => (match \1 { Ok(v__) => v__, Err(e__) => return Err(cinf_to_zoom(e__)) }) min=0
 //@sub /(self\.zoom_cir_tree\([^()]*\))\?/ => (match \1 { Ok(v__) => v__, Err(e__) => return Err(zdct_to_zoom(e__)) }) min=0
 //@sub /(self\.\w+\([^()]*\))\s*\.map_err\(\|_\| (ZoomIntervalError::\w+)\)\?/ => (match \1 { Ok(v__) => v__, Err(_) => return Err(\2) }) min=0
@@ -444,7 +449,7 @@ impl BigWigRead {
 //@sub /BigWigRead<R>/ => BigWigRead min=1
 //@sub /ZoomIntervalIter<BigWigRead, / => ZoomIntervalIter< min=1
 //@sub /chrom_name: &str/ => chrom_name: &Name min=1
-//@sub /blocks\.into_iter\(\)/ => blocks min=0
+//@sub /\.into_iter\(\)/ => "" min=0
 //@sub /(self\.info\.chrom_id\([^()]*\))\?/ => (match \1 { Ok(v__) => v__, Err(e__) => return Err(cinf_to_zoom(e__)) }) min=0
 //@sub /(self\.zoom_cir_tree\([^()]*\))\?/ => (match \1 { Ok(v__) => v__, Err(e__) => return Err(zdct_to_zoom(e__)) }) min=0
 //@sub /(self\.\w+\([^()]*\))\s*\.map_err\(\|_\| (ZoomIntervalError::\w+)\)\?/ => (match \1 { Ok(v__) => v__, Err(_) => return Err(\2) }) min=0
@@ -510,7 +515,7 @@ impl BigBedRead {
 //@sub /BigBedIntervalIter<R, / => BigBedIntervalIter< min=1
 //@sub /chrom_name: &str/ => chrom_name: &Name min=1
 //@sub /[ \t]*r: std::marker::PhantomData,\n/ => "" min=1
-//@sub /blocks\.into_iter\(\)/ => blocks min=0
+//@sub /\.into_iter\(\)/ => "" min=0
 //@sub /((?:\w+(?:\(\))?\s*\.\s*)*\w+(?:\(\))?)\s*\.iter\(\)\s*\.find\(\|&?\w+\| \w+\.name == chrom_name\)/ => find_chrom(&\1, chrom_name) min=0
 //@sub /((?:\w+(?:\(\))?\s*\.\s*)*\w+(?:\(\))?)\s*\.iter\(\)\s*\.position\(\|&?\w+\| \w+\.name == chrom_name\)/ => position_chrom(&\1, chrom_name) min=0
 //@sub /(self\.info\.chrom_id\([^()]*\))\?/ => (match \1 { Ok(v__) => v__, Err(e__) => return Err(cinf_to_read(e__)) }) min=0
@@ -533,6 +538,8 @@ impl BigBedRead {
             failed_log(old(self).read.log(), final(self).read.log(), Which::Full, old(self).info.header.endianness, c.id, start, end)),
         [[L: bb_get/chromosome_table_unchanged]]
         r matches Ok(it) ==> it.bigbed.info.chrom_info == old(self).info.chrom_info,
+//@at /let chrom_ix = / before
+        assert(lookup(self.info.chrom_info@, *chrom_name) is Some); [[L: bb_get/unwrap_cannot_panic_the_search_already_refused_unknown_names]]
 //@end
 
 //@extract method bigtools/src/bbi/bigbedread.rs get_interval_move "^impl<R: BBIFileRead> BigBedRead<R>"
@@ -540,7 +547,7 @@ impl BigBedRead {
 //@sub /BigBedIntervalIter<R, / => BigBedIntervalIter< min=1
 //@sub /chrom_name: &str/ => chrom_name: &Name min=1
 //@sub /[ \t]*r: std::marker::PhantomData,\n/ => "" min=1
-//@sub /blocks\.into_iter\(\)/ => blocks min=0
+//@sub /\.into_iter\(\)/ => "" min=0
 //@sub /((?:\w+(?:\(\))?\s*\.\s*)*\w+(?:\(\))?)\s*\.iter\(\)\s*\.find\(\|&?\w+\| \w+\.name == chrom_name\)/ => find_chrom(&\1, chrom_name) min=0
 //@sub /((?:\w+(?:\(\))?\s*\.\s*)*\w+(?:\(\))?)\s*\.iter\(\)\s*\.position\(\|&?\w+\| \w+\.name == chrom_name\)/ => position_chrom(&\1, chrom_name) min=0
 //@sub /(self\.info\.chrom_id\([^()]*\))\?/ => (match \1 { Ok(v__) => v__, Err(e__) => return Err(cinf_to_read(e__)) }) min=0
@@ -563,6 +570,8 @@ impl BigBedRead {
             it.expected_chrom, start, end, it.blocks@),
         [[L: bb_get_move/chromosome_table_unchanged]]
         r matches Ok(it) ==> it.bigbed.info.chrom_info == self.info.chrom_info,
+//@at /let chrom_ix = / before
+        assert(lookup(self_.info.chrom_info@, *chrom_name) is Some); [[L: bb_get_move/unwrap_cannot_panic_the_search_already_refused_unknown_names]]
 //@open
         let mut self_ = self;
 //@end
@@ -571,7 +580,7 @@ impl BigBedRead {
 //@sub /BigBedRead<R>/ => BigBedRead min=1
 //@sub /ZoomIntervalIter<BigBedRead, / => ZoomIntervalIter< min=1
 //@sub /chrom_name: &str/ => chrom_name: &Name min=1
-//@sub /blocks\.into_iter\(\)/ => blocks min=0
+//@sub /\.into_iter\(\)/ => "" min=0
 //@sub /(self\.info\.chrom_id\([^()]*\))\?/ => (match \1 { Ok(v__) => v__, Err(e__) => return Err(cinf_to_zoom(e__)) }) min=0
 //@sub /(self\s*\.\w+\([^()]*\))\s*\.map_err\(\|_\| (ZoomIntervalError::\w+)\)\?/ => (match \1 { Ok(v__) => v__, Err(_) => return Err(\2) }) min=0
 //@sub /(self\.zoom_cir_tree\([^()]*\))\?/ => (match \1 { Ok(v__) => v__, Err(e__) => return Err(zdct_to_zoom(e__)) }) min=0
@@ -599,7 +608,7 @@ impl BigBedRead {
 //@sub /BigBedRead<R>/ => BigBedRead min=1
 //@sub /ZoomIntervalIter<BigBedRead, / => ZoomIntervalIter< min=1
 //@sub /chrom_name: &str/ => chrom_name: &Name min=1
-//@sub /blocks\.into_iter\(\)/ => blocks min=0
+//@sub /\.into_iter\(\)/ => "" min=0
 //@sub /(self\.info\.chrom_id\([^()]*\))\?/ => (match \1 { Ok(v__) => v__, Err(e__) => return Err(cinf_to_zoom(e__)) }) min=0
 //@sub /(self\s*\.\w+\([^()]*\))\s*\.map_err\(\|_\| (ZoomIntervalError::\w+)\)\?/ => (match \1 { Ok(v__) => v__, Err(_) => return Err(\2) }) min=0
 //@sub /(self\.zoom_cir_tree\([^()]*\))\?/ => (match \1 { Ok(v__) => v__, Err(e__) => return Err(zdct_to_zoom(e__)) }) min=0
